@@ -315,6 +315,7 @@ struct StrDriver {
     S* obj[3] = {nullptr, nullptr, nullptr};
     M model[3];
     bool misuse;
+    char const* answerProp = nullptr; // see DriverBase::answerProp
 
     StrDriver(Plan const& p, Ctx& c)
         : plan(p)
@@ -558,6 +559,9 @@ struct StrDriver {
                 }
             } else {
                 ctx.violation("C05", "contract:spurious", "handler entered on a valid call at " + trap_site());
+                if (answerProp != nullptr) {
+                    ctx.violation(answerProp, "refusal:trapped-instead", "a call with a documented answer at capacity entered the handler at " + trap_site());
+                }
                 ctx.log.s(" ->spurious-trap");
                 resync(s);
             }
@@ -574,7 +578,8 @@ struct StrDriver {
 
     void begin_op(char const* name, int a, int var)
     {
-        ctx.op = name;
+        ctx.op           = name;
+        this->answerProp = nullptr;
         crash_set_op(name);
         ctx.log.s(name);
         ctx.log.kv("a", a);
@@ -919,14 +924,39 @@ struct StrDriver {
             ctx.log.i(static_cast<long long>(B.txt[i]));
         }
 
-        // ---- F6: the text argument aliases the string's own storage
-        bool const aliasOwn = !overflow && st.k[1] % 5 == 4 && sz > 0 && (kind == K_SET || kind == K_APPEND || kind == K_INSERT) && var == 2;
+        // ---- F6: the text argument aliases the string's own storage: as (pointer, length) or an iterator range, as a
+        // zero-terminated tail (s.c_str() + k) or as a view into the string itself
+        enum { AL_NONE, AL_PTR, AL_CSTR, AL_VIEW };
+        int aliasKind = AL_NONE;
+        if (!overflow && len != npos && st.k[1] % 5 == 4 && sz > 0) {
+            if (kind == K_SET) {
+                aliasKind = (var == 2 || var == 4) ? AL_PTR : (var == 0 || var == 1) ? AL_CSTR : (var == 5 || var == 6) ? AL_VIEW : AL_NONE;
+            } else if (kind == K_APPEND) {
+                aliasKind = (var == 2 || var == 8) ? AL_PTR : (var == 1 || var == 6) ? AL_CSTR : (var == 3 || var == 7) ? AL_VIEW : AL_NONE;
+            } else if (kind == K_INSERT) {
+                aliasKind = var == 2 ? AL_PTR : (var == 1 && room > 0) ? AL_CSTR : var == 5 ? AL_VIEW : AL_NONE;
+            }
+        }
+        bool const aliasOwn = aliasKind != AL_NONE;
         size_t aliasOff = 0;
         size_t aliasLen = 0;
         if (aliasOwn) {
             aliasOff = static_cast<size_t>(st.v[1]) % sz;
             aliasLen = std::min(sz - aliasOff, kind == K_SET ? N : room);
-            SIM_COUNT("F6.pointer_argument_aliases_own_storage");
+            if (aliasKind == AL_CSTR) {
+                // the length of a zero-terminated tail is whatever lies before the terminator: for insert keep it within
+                // the free room (an insertion that does not fit has no documented answer); append clamps; assign fits
+                if (kind == K_INSERT) {
+                    aliasOff = sz - 1 - static_cast<size_t>(st.v[1]) % std::min(sz, room);
+                }
+                aliasLen = sz - aliasOff;
+                SIM_COUNT("F6.cstr_argument_aliases_own_storage");
+            } else if (aliasKind == AL_VIEW) {
+                SIM_COUNT("F6.view_argument_aliases_own_storage");
+            } else {
+                SIM_COUNT("F6.pointer_argument_aliases_own_storage");
+            }
+            ctx.log.kv("alias_kind", aliasKind);
             ctx.log.kv("alias_off", static_cast<long long>(aliasOff));
             ctx.log.kv("alias_len", static_cast<long long>(aliasLen));
         }
@@ -944,8 +974,10 @@ struct StrDriver {
             // reference not needed: the call must be refused
         } else {
             if (aliasOwn) {
-                B.ma.ptr = trial.data() + aliasOff;
-                B.ma.len = aliasLen;
+                B.ma.ptr  = trial.data() + aliasOff;
+                B.ma.len  = aliasLen;
+                B.ma.cstr = aliasKind == AL_CSTR ? trial.c_str() + aliasOff : B.ma.cstr;
+                B.ma.view = aliasKind == AL_VIEW ? MV(trial.data() + aliasOff, aliasLen) : B.ma.view;
             }
             if (len == npos) {
                 trial.append(N + 1, B.ma.ch); // stands for "more than fits": only the clamped prefix is compared
@@ -963,8 +995,10 @@ struct StrDriver {
             return;
         }
         if (aliasOwn) {
-            B.sa.ptr = v.data() + aliasOff;
-            B.sa.len = aliasLen;
+            B.sa.ptr  = v.data() + aliasOff;
+            B.sa.len  = aliasLen;
+            B.sa.cstr = aliasKind == AL_CSTR ? v.c_str() + aliasOff : B.sa.cstr;
+            B.sa.view = aliasKind == AL_VIEW ? SV(v.data() + aliasOff, aliasLen) : B.sa.view;
         }
         bool const tooLong = trial.size() > N;
 
@@ -995,6 +1029,7 @@ struct StrDriver {
             bool const clampFamily = kind == K_APPEND && (var <= 7 || var == 13);
             if (clampFamily) {
                 // F1: documented clamp. Everything that fits must be appended, nothing else may change.
+                this->answerProp = "C04";
                 bool ok = call(a, false, false, [&] { apply_mut(kind, var, v, B.sa); });
                 if (ok) {
                     ++ctx.faultsFired;
